@@ -6,6 +6,7 @@ import (
 	"bytes"
 	"runtime"
 	"strconv"
+	"strings"
 	"sync"
 	"time"
 )
@@ -23,23 +24,97 @@ type GateEvent struct {
 
 type gateReq struct {
 	id      uint64
-	parked  bool
-	done    bool
+	parked  bool // at least one goroutine working for this request is parked at a site
+	done    bool // the request goroutine has returned
 	site    string
-	release chan struct{}
+	release []chan struct{} // one per parked goroutine (a request can have several: children, asynchronous tail)
+	// asynchronous tail (work the request leaves to a goroutine it did not create, e.g. the sync event
+	// handler of a subscriber): declared with "@tail:<site>=<id>" / "@taildone:<site>=<id>"
+	tailWant bool
+	tailDone bool
+}
+
+// settled: nothing working for the request can move without the scheduler (parked), or everything
+// it started has finished.  A request blocked on a lock is neither (bounded waits handle it).
+func (r *gateReq) settled() bool {
+	return r.parked || (r.done && (!r.tailWant || r.tailDone))
+}
+
+// finished: the request and its declared asynchronous tail are over.
+func (r *gateReq) finished() bool {
+	return !r.parked && r.done && (!r.tailWant || r.tailDone)
 }
 
 var (
 	gmu     sync.Mutex
 	gcond   = sync.NewCond(&gmu)
-	gactive bool                 // a gated par is running
-	gopen   bool                 // gates are pass-through (end of schedule)
-	gbyGo   map[uint64]*gateReq  // goroutine id -> request
-	gbyID   map[uint64]*gateReq  // request id -> request
+	gactive bool                // a gated par is running
+	gopen   bool                // gates are pass-through (end of schedule)
+	gbyGo   map[uint64]*gateReq // goroutine id -> request
+	gbyID   map[uint64]*gateReq // request id -> request
 	gevents []GateEvent
 	gseq    uint64
 	gsites  map[string]bool // if non-nil, only these sites park
+	// directives in the site list (entries starting with "@"):
+	//   @inherit                 a goroutine created by a goroutine working for request r works for r
+	//   @tail:<site>=<id>        any other goroutine arriving at <site> works for request <id>
+	//   @tailwant=<id>           request <id> leaves work to a goroutine that outlives it (asynchronous tail)
+	//   @taildone:<site>[=<id>]  passing <site> (never parks) ends the asynchronous tail of the request the
+	//                            goroutine works for (of request <id> when it works for none)
+	//   @coalesce                a request that parks again at the site it was just released from (several
+	//                            goroutines of one request passing the same site, e.g. one per block) is
+	//                            released again within the same scheduling step
+	ginherit  bool
+	gcoalesce bool
+	gtail     map[string]uint64
+	gtaildone map[string]uint64
 )
+
+// creatorGoid returns the id of the goroutine that created the calling goroutine (Go >= 1.21
+// prints "created by f in goroutine N" at the end of a stack trace), 0 if unknown.
+func creatorGoid() uint64 {
+	buf := make([]byte, 64<<10)
+	n := runtime.Stack(buf, false)
+	b := buf[:n]
+	i := bytes.LastIndex(b, []byte("\ncreated by "))
+	if i < 0 {
+		return 0
+	}
+	line := b[i+1:]
+	if j := bytes.IndexByte(line, '\n'); j >= 0 {
+		line = line[:j]
+	}
+	k := bytes.LastIndex(line, []byte(" in goroutine "))
+	if k < 0 {
+		return 0
+	}
+	id, _ := strconv.ParseUint(strings.TrimSpace(string(line[k+len(" in goroutine "):])), 10, 64)
+	return id
+}
+
+// gateResolve finds the request the calling goroutine works for (gmu held).
+func gateResolve(site string) *gateReq {
+	g := goid()
+	if r := gbyGo[g]; r != nil {
+		return r
+	}
+	if ginherit {
+		if r := gbyGo[creatorGoid()]; r != nil {
+			gbyGo[g] = r
+			return r
+		}
+	}
+	if id, ok := gtail[site]; ok {
+		if r := gbyID[id]; r != nil {
+			gbyGo[g] = r // the handler goroutine keeps working for r until the run ends
+			return r
+		}
+	}
+	if id, ok := gtaildone[site]; ok && id != 0 {
+		return gbyID[id]
+	}
+	return nil
+}
 
 func goid() uint64 {
 	var buf [64]byte
@@ -67,8 +142,15 @@ func gatePoint(site string, arg uint64) {
 		gmu.Unlock()
 		return
 	}
-	r := gbyGo[goid()]
+	r := gateResolve(site)
 	if r == nil {
+		gmu.Unlock()
+		return
+	}
+	if _, ok := gtaildone[site]; ok {
+		r.tailDone = true
+		gev(r.id, "taildone", site, arg)
+		gcond.Broadcast()
 		gmu.Unlock()
 		return
 	}
@@ -80,7 +162,7 @@ func gatePoint(site string, arg uint64) {
 	r.parked = true
 	r.site = site
 	ch := make(chan struct{})
-	r.release = ch
+	r.release = append(r.release, ch)
 	gev(r.id, "park", site, arg)
 	gcond.Broadcast()
 	gmu.Unlock()
@@ -96,18 +178,51 @@ func gateBegin(rq Req) {
 	gevents = nil
 	gseq = 0
 	gsites = nil
+	ginherit = false
+	gcoalesce = false
+	gtail = map[string]uint64{}
+	gtaildone = map[string]uint64{}
+	for _, r := range rq.Reqs {
+		gbyID[r.ID] = &gateReq{id: r.ID}
+	}
 	if len(rq.Args) > 0 {
-		// args: list of site names to park at
+		// args: list of site names to park at (and "@" directives)
 		var sites []string
 		if jsonUnmarshal(rq.Args, &sites) == nil && len(sites) > 0 {
 			gsites = map[string]bool{}
 			for _, s := range sites {
-				gsites[s] = true
+				switch {
+				case s == "@inherit":
+					ginherit = true
+				case s == "@coalesce":
+					gcoalesce = true
+				case strings.HasPrefix(s, "@tailwant="):
+					id, _ := strconv.ParseUint(s[len("@tailwant="):], 10, 64)
+					if r := gbyID[id]; r != nil {
+						r.tailWant = true
+					}
+				case strings.HasPrefix(s, "@tail:") || strings.HasPrefix(s, "@taildone:"):
+					kv := strings.SplitN(s[strings.IndexByte(s, ':')+1:], "=", 2)
+					var id uint64
+					if len(kv) == 2 {
+						id, _ = strconv.ParseUint(kv[1], 10, 64)
+					}
+					if strings.HasPrefix(s, "@tail:") {
+						if id == 0 {
+							continue
+						}
+						gtail[kv[0]] = id
+					} else {
+						gtaildone[kv[0]] = id
+					}
+					if r := gbyID[id]; r != nil {
+						r.tailWant = true
+					}
+				default:
+					gsites[s] = true
+				}
 			}
 		}
-	}
-	for _, r := range rq.Reqs {
-		gbyID[r.ID] = &gateReq{id: r.ID}
 	}
 	gmu.Unlock()
 }
@@ -125,7 +240,9 @@ func gateDone(id uint64) {
 	gmu.Lock()
 	r := gbyID[id]
 	r.done = true
-	r.parked = false
+	if len(r.release) == 0 {
+		r.parked = false
+	}
 	gev(id, "done", "", 0)
 	gcond.Broadcast()
 	gmu.Unlock()
@@ -155,7 +272,7 @@ func gateRun(rq Req, wg *sync.WaitGroup) []GateEvent {
 	}
 	allSettled := func() bool {
 		for _, r := range gbyID {
-			if !r.parked && !r.done {
+			if !r.settled() {
 				return false
 			}
 		}
@@ -166,7 +283,7 @@ func gateRun(rq Req, wg *sync.WaitGroup) []GateEvent {
 	for _, id := range rq.Sched {
 		gmu.Lock()
 		r := gbyID[id]
-		if r == nil || r.done {
+		if r == nil || r.finished() {
 			gmu.Unlock()
 			continue
 		}
@@ -177,12 +294,34 @@ func gateRun(rq Req, wg *sync.WaitGroup) []GateEvent {
 			continue
 		}
 		r.parked = false
-		ch := r.release
+		chs := r.release
 		r.release = nil
+		site := r.site
 		gev(id, "release", r.site, 0)
 		gmu.Unlock()
-		close(ch)
-		ok := waitSettled(func() bool { return r.parked || r.done }, wait)
+		for _, ch := range chs {
+			close(ch)
+		}
+		ok := waitSettled(r.settled, wait)
+		for n := 0; gcoalesce && ok && n < 64; n++ {
+			gmu.Lock()
+			again := r.parked && r.site == site && len(r.release) > 0
+			var more []chan struct{}
+			if again {
+				r.parked = false
+				more = r.release
+				r.release = nil
+				gev(id, "release", r.site, 1)
+			}
+			gmu.Unlock()
+			if !again {
+				break
+			}
+			for _, ch := range more {
+				close(ch)
+			}
+			ok = waitSettled(r.settled, wait)
+		}
 		if !ok {
 			gmu.Lock()
 			gev(id, "blocked", "", 0)
@@ -198,13 +337,24 @@ func gateRun(rq Req, wg *sync.WaitGroup) []GateEvent {
 	for _, r := range gbyID {
 		if r.parked && r.release != nil {
 			r.parked = false
-			close(r.release)
+			for _, ch := range r.release {
+				close(ch)
+			}
 			r.release = nil
 			gev(r.id, "release", r.site, 0)
 		}
 	}
 	gmu.Unlock()
 	wg.Wait()
+	// asynchronous tails: give them a bounded time to finish (they pass every gate now)
+	waitSettled(func() bool {
+		for _, r := range gbyID {
+			if r.tailWant && !r.tailDone {
+				return false
+			}
+		}
+		return true
+	}, wait)
 	gmu.Lock()
 	gactive = false
 	evs := gevents
